@@ -88,6 +88,22 @@ class UniformProbe:
         np.random.uniform = self.orig
 
 
+def hetero_reference(pa, rng):
+    """One annotator with long units, the others with short ones, on a short line; returns (reference, the long annotator):
+    a ground truth WITHOUT the long annotator has a much smaller average unit length than the reference."""
+    from pyannote.core import Segment
+    n_ann = rng.randint(3, 5)
+    span = rng.choice([12, 16, 24])
+    long_one = rng.randrange(n_ann)
+    c = pa.Continuum()
+    for a in range(n_ann):
+        c.add_annotator(f"r{a}")
+        for _ in range(rng.randint(2, 4)):
+            s = rng.randint(0, span)
+            c.add(f"r{a}", Segment(s, s + (rng.randint(span // 2, span) if a == long_one else 1)), rng.choice(LABELS))
+    return c, f"r{long_one}"
+
+
 def random_reference(pa, rng, int_grid, small=False):
     """small: the whole reference on a scale of a few time units at most (times are multiples of 0.01, units well below 1 long):
     nothing in the statement depends on the unit of time"""
@@ -142,6 +158,12 @@ def record_samples(pa, rng, count, rep):
             gt = None
             if rng.random() < 0.5 and len(anns) > 2:
                 gt = sorted(rng.sample(anns, rng.randint(2, len(anns))))
+            if rng.random() < 0.15:
+                # ground truth = the annotators with SHORT units of a reference whose average is dominated by one annotator's
+                # long units: the separation is half the average unit length OF THE REFERENCE
+                ref, long_one = hetero_reference(pa, rng)
+                anns = list(ref.annotators)
+                gt = sorted(a for a in anns if a != long_one)
             # four times in ten the sampler object of an earlier reference (same pivot type) is initialised again on this one:
             # the references share annotator names, nothing of the earlier one may show in the samples
             if rng.random() < 0.4 and prev.get(mode) is not None:
